@@ -119,6 +119,21 @@ def _prob_vector_order(tree: ast.AST) -> str:
     raise ValueError(f"ProbabilisticAgent.probabilities: unrecognised vector expression {ast.unparse(a)}")
 
 
+def _prob_vector_order_or_translation(tree: ast.AST) -> str:
+    """The text pin when the shape is one of the known ones; otherwise, when the statement-by-statement translator
+    (agents_ctl.TrVec) can translate the method, "seeTranslation": the order is then decided by theorem
+    `C19_gen_prob_vector` about the translated function (Props/C19Get.lean), not by this pin."""
+    try:
+        return _prob_vector_order(tree)
+    except ValueError:
+        from harness.extract import agents_ctl
+        try:
+            agents_ctl.TrVec().body(find_method(class_def(tree, "ProbabilisticAgent"), "probabilities").body, 1)
+        except agents_ctl.Unsupported:
+            raise
+        return "seeTranslation"
+
+
 def _cmp_op(test: ast.AST) -> str:
     if isinstance(test, ast.Compare) and len(test.ops) == 1:
         return type(test.ops[0]).__name__
@@ -449,7 +464,7 @@ def tapRandintArgs : String := "{t_rand_args}"
 def periodicDefaults : List (String × Int) := {_lean_pairs([(k, _field_default(settings, k)) for k in ("start_step", "start_variance", "frequency", "variance", "max_executions")])}
 def tapDefaults : List (String × Int) := {_lean_pairs([(k, int(_field_default(tap_settings, k))) for k in ("start_step", "frequency", "variance", "repeat_kill_chain", "repeat_kill_chain_stages")])}
 /-- how `ProbabilisticAgent.probabilities` orders the vector handed to numpy: "insertion" = `list(d.values())`, "byKey" = indexed by action number -/
-def probVectorOrder : String := "{_prob_vector_order(t_prob)}"
+def probVectorOrder : String := "{_prob_vector_order_or_translation(t_prob)}"
 /-- parameter names of every `get_action` under game/agent, and how `PrimaiteGame.apply_agent_actions` calls it -/
 def getActionParams : List (String × List String) := [{", ".join(f'("{n}", {_lean_strs(a)})' for n, a in sigs)}]
 def gameGetActionCall : String := "{_game_call()}"
